@@ -50,12 +50,14 @@ func NewDecimal(i int64, exponent int) (Decimal, error) {
 		intPart = i / int64(math.Pow10(-exponent))
 		fracPart = i % int64(math.Pow10(-exponent)) * int64(math.Pow10(4+exponent))
 	} else {
-		intPart = i * int64(math.Pow10(exponent))
-		if i > 0 && intPart < i {
+		scale := int64(math.Pow10(exponent))
+		// check before multiplying: a wrapped product can still be larger than i
+		if i > math.MaxInt64/scale {
 			return Decimal{}, fmt.Errorf("%w: value %ve%v would overflow", errDecimal, i, exponent)
-		} else if i < 0 && intPart > i {
+		} else if i < math.MinInt64/scale {
 			return Decimal{}, fmt.Errorf("%w: value %ve%v would underflow", errDecimal, i, exponent)
 		}
+		intPart = i * scale
 	}
 
 	return newDecimal(intPart, int16(fracPart))
@@ -76,7 +78,10 @@ func NewDecimalFromInt[T constraints.Signed](i T) (Decimal, error) {
 // Decimal above those sizes, use the NewDecimal constructor.
 func NewDecimalFromFloat[T constraints.Float](f T) (Decimal, error) {
 	f = f * decimalPrecision
-	if f > math.MaxInt64 {
+	if f != f {
+		return Decimal{}, fmt.Errorf("%w: value %v is not a number", errDecimal, f)
+	} else if f >= math.MaxInt64 {
+		// float(math.MaxInt64) is 2^63, which does not fit in an int64 any more
 		return Decimal{}, fmt.Errorf("%w: value %v would overflow", errDecimal, f)
 	} else if f < math.MinInt64 {
 		return Decimal{}, fmt.Errorf("%w: value %v would underflow", errDecimal, f)
